@@ -2665,7 +2665,7 @@ def r4_one_validation_path(corpus: Corpus, rep: Report, tier: str):
                     if isinstance(c_, ast.Call) and m.resolve(dotted(c_.func) or "") == "textwrap.dedent":
                         rep.violation(
                             "C08.R4",
-                            f"{f.fq}|the {sty!r} style hands the block text to the tokenizer without rewriting its lines|{short(st, 50)}",
+                            f"{f.fq}|the {sty!r} style hands the block text to the tokenizer without rewriting its lines|{m.resolve(dotted(c_.func) or '')}",
                             m.site(st),
                             f"`{short(st, 50)}`: textwrap.dedent empties every whitespace-only line, so a `|` block value of the {sty!r} style loses the spaces of a whitespace-only line that is "
                             "indented deeper than the block ('\\n\\n' instead of '\\n    \\n'), unlike the same lines in the other style or in YAML",
